@@ -190,6 +190,22 @@ static int argeval(int id)
   return id;
 }
 
+// ------------------------------------------------------------------ lock yield points (shadow Spinlock builds only)
+static bool g_lock_yields = true;
+extern "C" void quill_verif_lock_point(char const* why)
+{
+  if (vs::tl_self && g_lock_yields) vs::park(why);
+}
+static std::map<void*, long> g_ptr_ids;
+static long ptr_id(void* p)
+{
+  auto it = g_ptr_ids.find(p);
+  if (it != g_ptr_ids.end()) return it->second;
+  long k = static_cast<long>(g_ptr_ids.size()) + 1;
+  g_ptr_ids[p] = k;
+  return k;
+}
+
 // ------------------------------------------------------------------ hooks
 extern "C" void quill_verif_point(int id, void const* p)
 {
@@ -753,6 +769,31 @@ static int run_script(std::istream& in)
             VFrontend::remove_logger_blocking(lg);
             lt->ctx = my_ctx();
             { Ev e{"RemoveBlockingRet"}; e.s("t", lt->name).s("lg", name).u("nloggers", VFrontend::get_number_of_loggers()); }
+          });
+        }
+        else if (op == "create" || op == "get")
+        {
+          // create_or_get_logger / get_logger from a logical thread (registry access interleaves with other threads)
+          std::string name = tok[3];
+          auto a = kv(tok, 4);
+          std::vector<std::shared_ptr<quill::Sink>> sinks;
+          {
+            std::stringstream ss(gets(a, "sinks"));
+            std::string x;
+            while (std::getline(ss, x, ',')) if (g_sinks.count(x)) sinks.push_back(g_sinks[x]);
+          }
+          bool create = op == "create";
+          std::string sinknames = gets(a, "sinks");
+          st = vs::drive(lt, [lt, name, sinks, create, sinknames] {
+            { Ev e{create ? "CreateCall" : "GetCall"}; e.s("t", lt->name).s("lg", name); }
+            VLogger* lg = create ? VFrontend::create_or_get_logger(name, sinks, quill::PatternFormatterOptions{"%(message)"},
+                                                                  quill::ClockSourceType::System)
+                                 : VFrontend::get_logger(name);
+            if (lg && create) lg->set_log_level(LogLevel::TraceL3);
+            if (lg) g_loggers[name] = lg;
+            Ev e{create ? "CreateRet" : "GetRet"};
+            e.s("t", lt->name).s("lg", name).i("ptr", lg ? ptr_id(lg) : 0).u("nloggers", VFrontend::get_number_of_loggers())
+              .i("nsinks", lg ? static_cast<long long>(lg->get_sinks().size()) : 0).s("sinks", sinknames);
           });
         }
         else if (op == "prealloc")
